@@ -17,7 +17,7 @@ RULE = ("A case is one numeric interval (1..4 distinct ranges of time-of-day / d
         "extended, month names cut/cased, day/month order, separators '-',' - ','/', delimiters "
         "',' ';', trailing delimiter, whitespace, integer sequences of every allowed length, "
         "mixed string/sequence ranges, sets) plus probe moments (endpoints, +-1 us / +-1 day "
-        "neighbours, random); or one malformed specification from a grammar of invalid inputs; "
+        "neighbours, random); or one malformed specification from a grammar of invalid inputs (incl. generated strings with digits glued to both sides of a month name or time of day); "
         "or a TimeDate.parse/TimeSpan.parse call. Thorough adds all 366^2 date ranges x 366 "
         "days and all 1440^2 minute-grid time ranges x 6 boundary probes. Non-trivial = interval "
         "with a wrapping or equal-endpoint range or >=2 ranges, rendered in >=2 different "
@@ -251,6 +251,9 @@ BAD = {
         ([[[1, 2, 3], [1, 2]]], 'sequence of wrong length'), (5, 'non-sequence'), ([5], 'non-sequence'),
         ([[[1, 1], [1, 2], [1, 3]]], 'three endpoints'), ('Mar 32', 'day 32'), ('2020 Mar 3', 'extra year'),
         ('Mar 3 12:00', 'extra time'), ([[]], 'empty range'),
+        ('1jun5', 'digits on both sides of the month'), ('2DEC4', 'digits on both sides of the month'),
+        ('Mar 1 - 3apr0', 'digits on both sides of the month'), ('1 jun 5', 'extra token'),
+        ('1.jun.5', 'extra token'), ('12 3', 'missing month'), ('jun', 'missing day'), ('1 jun jul', 'two months'),
     ],
     'datetime': [
         ('2020-02-30 12:00 / 2020-03-01 12:00', 'Feb 30'), ('2021 Feb 29 1:00 / 2021 Mar 1 1:00', 'Feb 29 in a common year'),
@@ -265,6 +268,9 @@ BAD = {
         ([[[2020, 13, 1, 12, 0], [2020, 3, 2, 12, 0]]], 'month 13'),
         ([[[2021, 2, 29, 12, 0], [2021, 3, 2, 12, 0]]], 'Feb 29 in a common year'),
         ([[[2020, 3, 1, 12, 0]]], 'missing endpoint'), (5, 'non-sequence'), ([5], 'non-sequence'),
+        ('2010:0024 jul 5 / 2024-07-16 10:00', 'time of day inside the year'),
+        ('20jul24 5 10:00 / 2024-07-16 10:00', 'month inside the year'),
+        ('2024 1jul5 10:00 / 2024-07-16 10:00', 'digits on both sides of the month'),
         ('2020-Fo-01 12:00 / 2020-03-02 12:00', '2-letter month'), ('20-03-01 12:00 / 2020-03-02 12:00', 'short year'),
     ],
 }
@@ -276,6 +282,32 @@ def bad_cases(draw):
     idx = draw(st.integers(0, len(BAD[kind]) - 1))
     wrap = draw(st.sampled_from(['plain', 'with_valid']))
     return {'k': 'bad', 'kind': kind, 'idx': idx, 'wrap': wrap}
+
+
+@st.composite
+def glued_cases(draw):
+    """malformed traditional strings in which a month name or a time of day has digits on both sides:
+    taking the token out must not glue its neighbours into one number"""
+    kind = draw(st.sampled_from(['date', 'date', 'datetime']))
+    mo = draw(st.integers(1, 12))
+    mon = month_name(draw, mo)
+    a = str(draw(st.integers(0, 31)))
+    b = str(draw(st.integers(0, 31)))
+    if kind == 'date':
+        spec = a + mon + b
+        if draw(st.booleans()):
+            spec = draw(st.sampled_from(['Mar 1 - ', 'jan 5 / ', '1.2. - '])) + spec
+    else:
+        hm = f"{draw(st.integers(0, 23))}:{draw(st.integers(0, 59)):02d}"
+        shape = draw(st.integers(0, 2))
+        if shape == 0:
+            spec = f"20{hm}24 {mon} 5"                  # time of day inside the year
+        elif shape == 1:
+            spec = f"2024 {a}{mon}{b} {hm}"             # month between two numbers
+        else:
+            spec = f"20{mon}24 {a} {hm}"                # month inside the year
+        spec += ' / 2030-07-16 10:00'
+    return {'k': 'glued', 'kind': kind, 'spec': spec}
 
 
 @st.composite
@@ -309,7 +341,8 @@ def interval_cases_of(draw, kind):
 
 
 def strategy(tier):
-    return st.one_of(interval_cases(), interval_cases(), interval_cases(), bad_cases(), parse_cases())
+    return st.one_of(interval_cases(), interval_cases(), interval_cases(), bad_cases(), parse_cases(),
+                     glued_cases())
 
 
 def exhaustive(tier):
@@ -517,6 +550,20 @@ def execute(case):
         res.nontrivial = True
         res.classes = ['bad/' + kind]
         res.outcome = {'spec': spec, 'why': why}
+    elif k == 'glued':
+        cls = CLS[case['kind']]
+        spec = case['spec']
+        try:
+            obj = cls(spec)
+        except (ValueError, TypeError):
+            pass
+        except Exception as err:
+            res.fail('C13.malformed_wrong_exception', f"{cls.__name__}({spec!r}) raised {err!r}")
+        else:
+            res.fail('C13.malformed_accepted', f"{cls.__name__}({spec!r}) (glued tokens) -> {obj.as_list()}")
+        res.nontrivial = True
+        res.classes = ['bad/glued tokens']
+        res.outcome = {'spec': spec}
     elif k == 'parse':
         times, dates, span = case['times'], case['dates'], case['span']
         wd = case['weekdays']
